@@ -248,8 +248,16 @@ func specMutations(f *Func) []Func {
 	add(func(c *Func) bool { ok := len(c.OptAs) > 0; c.OptAs = nil; return ok })
 	add(func(c *Func) bool { ok := c.ErrFirst; c.ErrFirst = false; return ok })
 	add(func(c *Func) bool { ok := c.ErrAt > 0; c.ErrAt = 0; return ok })
+	add(func(c *Func) bool { ok := c.ErrExtra > 0; c.ErrExtra = 0; return ok })
 	add(func(c *Func) bool { ok := c.Reenter; c.Reenter = false; return ok })
-	add(func(c *Func) bool { ok := c.HasErr; c.HasErr = false; c.ErrFirst = false; c.ErrAt = 0; return ok })
+	add(func(c *Func) bool {
+		ok := c.HasErr
+		c.HasErr = false
+		c.ErrFirst = false
+		c.ErrAt = 0
+		c.ErrExtra = 0
+		return ok
+	})
 	// flatten parameter objects into positional parameters where legal
 	add(func(c *Func) bool {
 		lp := c.LeafParams()
